@@ -15,11 +15,17 @@ where `collection.go` applies it (`ikstep c`).
 * `C19_icpt_inv`: hence all invariants after any canonical tame run from any accepted configuration of canonical
   records, for ANY `c`;
 * `C19_icpt_I1`: whatever the spellings, at most one mode is normal and every record stays under the canonical form
-  of its id (idempotent `c`, tame operations): only I2 / I3 are at stake;
-* `C19_icpt_repair`: a guard that also looks at the stored mode's id would restore I2 for every interceptor and every
-  spelling (a proposal, not the code);
-* `C19_icpt_fails`: the hypothesis is needed — a caller that uses two spellings of one id (`AddMode B`,
-  `ChangeActiveMode B`, `DeleteMode b`) deletes the active mode: the guard of `deleteMode` compares spellings.
+  of its id (idempotent `c`, tame operations);
+* `C19_icpt_I2`: since 00bc77e + c078347 (`deleteMode` also looks at what the collection finds under the id and under
+  the active mode's id) I2 and I3 hold behind every idempotent interceptor, whatever the spellings: once changed the
+  active mode's id leads to a stored mode, and a delete under ANY spelling of that key is refused, nothing changed;
+* `C19_icpt_I2_step`: one step, any `c` at all, any state at all (no hypothesis on records or options): the mode a
+  successful `ChangeActiveMode(id)` made active cannot be deleted under any spelling `id'` with `c id' = c id`;
+  and where records carry their keys and ids are canonical the new guards decide as the old one did;
+* `C19_icpt_fails`: the defect as it was (`ikdeleteModeUnfixed`): a caller that uses two spellings of one id
+  (`AddMode B`, `ChangeActiveMode B`, `DeleteMode b`) deleted the active mode; the code now refuses;
+* `C19_icpt_respell_fails`: the second guard alone (00bc77e, `ikdeleteModeHalf`) is not enough — an `UpdateMode{Id:b}`
+  in between respells the stored id; the third guard (c078347) is what `C19_icpt_I2` needs.
 -/
 namespace ScVerif.C19
 
@@ -31,7 +37,7 @@ theorem C19_icpt_identity (k : KSt) (op : Op) :
     ikactiveEvents (fun x => x) k op = kactiveEvents k op := by
   refine ⟨ikstep_id k op, ?_, ?_⟩
   · have hw : ikwrittenKey (fun x => x) k op = kwrittenKey k op := by
-      cases op <;> simp only [ikwrittenKey, kwrittenKey, ikchooseId, kchooseId, ikgenId_id]
+      cases op <;> simp only [ikwrittenKey, kwrittenKey, ikchooseId, kchooseId, ikgenId_id, or_self]
       case add m => by_cases h : m.id = "" <;> simp [h]
     unfold ikmodeEvents kmodeEvents
     rw [hw, ikstep_id]
@@ -41,25 +47,31 @@ theorem C19_icpt_identity (k : KSt) (op : Op) :
 
 /-- **C19_icpt_invisible.** For ANY id interceptor `c`: an operation — any kind, any options, tame or not — all of
 whose ids are spelled canonically (`c id = id`; for CreateMode also the ids the RNG proposes), in a state whose
-records carry canonical ids, has the result and the effect it has without the interceptor and publishes the same
-PullModes / PullActiveMode events; and if it is tame the records still carry canonical ids afterwards. -/
-theorem C19_icpt_invisible (c : String → String) (k : KSt) (op : Op) (ho : OpCanon c op) (hk : RecsCanon c k) :
+records and active mode carry canonical ids, has the result and the effect it has without the interceptor and
+publishes the same PullModes / PullActiveMode events; the active mode's id is canonical afterwards, and if the
+operation is tame the records still carry canonical ids. -/
+theorem C19_icpt_invisible (c : String → String) (k : KSt) (op : Op) (ho : OpCanon c op) (hk : RecsCanon c k)
+    (ha : ActCanon c k) :
     ikstep c k op = kstep k op ∧
     ikmodeEvents c k op = kmodeEvents k op ∧ ikactiveEvents c k op = kactiveEvents k op ∧
+    ActCanon c (ikstep c k op).1 ∧
     (op.Tame → RecsCanon c (ikstep c k op).1) := by
-  refine ⟨ikstep_canon c k op ho hk, (ikevents_canon c k op ho hk).1, (ikevents_canon c k op ho hk).2, fun ht => ?_⟩
-  rw [ikstep_canon c k op ho hk]
-  exact kstep_canon hk op ho ht
+  refine ⟨ikstep_canon c k op ho hk ha, (ikevents_canon c k op ho hk ha).1, (ikevents_canon c k op ho hk ha).2, ?_,
+    fun ht => ?_⟩
+  · rw [ikstep_canon c k op ho hk ha]
+    exact kstep_actCanon hk ha op ho
+  · rw [ikstep_canon c k op ho hk ha]
+    exact kstep_canon hk op ho ht
 
 /-- **C19_icpt_inv.** The invariants behind ANY id interceptor `c`, for callers that spell ids canonically.  From
 any configuration of initial records the constructor accepts (keys distinct after `c`) in which every record carries
-its key, the keys are canonical and at most one record is normal, after ANY sequence of tame operations with
+its key, the keys and the initial active mode's id are canonical and at most one record is normal, after ANY sequence of tame operations with
 canonical ids: the run is the run of the keyed model without interceptor — hence of `Electric.lean`'s model —, at
 most one listed mode is normal, once changed the active mode's id is a key of the collection, every listed record is
 found under the id it carries, keys are distinct. -/
 theorem C19_icpt_inv (c : String → String) (recs : List Rec) (active : Mode) (k0 : KSt)
     (hc : KSt.iconfig? c recs active = some k0)
-    (hrec : ∀ e ∈ recs, e.1 = e.2.id) (hcan : ∀ e ∈ recs, c e.1 = e.1)
+    (hrec : ∀ e ∈ recs, e.1 = e.2.id) (hcan : ∀ e ∈ recs, c e.1 = e.1) (hact : c active.id = active.id)
     (h1 : ∀ x ∈ recs, ∀ y ∈ recs, x.2.normal = true → y.2.normal = true → x = y)
     (ops : List Op) (ht : ∀ op ∈ ops, OpCanon c op ∧ op.Tame) :
     let k := ikrun c k0 ops
@@ -84,7 +96,13 @@ theorem C19_icpt_inv (c : String → String) (recs : List Rec) (active : Mode) (
       rw [← hrec e he']
       exact hcan e he'
     · cases hc
-  obtain ⟨hrun, _⟩ := ikrun_canon c ops k0 hk0 ht
+  have ha0 : ActCanon c k0 := by
+    unfold KSt.config? at hc
+    split at hc
+    · cases hc
+      exact hact
+    · cases hc
+  obtain ⟨hrun, _⟩ := ikrun_canon c ops k0 hk0 ha0 ht
   have := C19_keyed_inv recs active k0 hc hrec h1 ops (fun op hop => (ht op hop).2)
   simp only [hrun]
   exact ⟨trivial, this⟩
@@ -109,71 +127,122 @@ theorem C19_icpt_I1 (c : String → String) (hc : ∀ x, c (c x) = c x) (k0 : KS
 /-- a small interceptor with two spellings of one id: `B` is kept under `b` -/
 def foldB : String → String := fun s => if s = "B" then "b" else s
 
-/-- **C19_icpt_fails.** The canonical-spelling hypothesis of `C19_icpt_invisible` / `C19_icpt_inv` is needed, and
-what its failure costs is derived in the model: behind an interceptor that keeps `B` under `b`, on a new model
-`AddMode{Id:"B"}` (stored under `b`, the record says `B`), `ChangeActiveMode("B")` (found under `b`; the active mode's
-id is `B`), `DeleteMode("b")`: the guard compares the spellings `b` and `B`, the collection deletes the key `b` — the
-call succeeds, no mode is left, the active mode has been deleted (I2) and names no stored mode (I3).  Spelled `B` the
-same delete is refused.  Second run, through the servers: a client that says `b` throughout (`UpdateActiveMode b`,
-`DeleteMode b`) deletes the active mode all the same, because the record was added as `B` and the active mode
-carries that spelling. -/
+/-- **C19_icpt_fails.** The defect as it was before 00bc77e (`ikdeleteModeUnfixed`: the only guard compared
+spellings), derived in the model: behind an interceptor that keeps `B` under `b`, on a new model `AddMode{Id:"B"}`
+(stored under `b`, the record says `B`), `ChangeActiveMode("B")` (found under `b`; the active mode's id is `B`),
+`DeleteMode("b")`: the guard compared the spellings `b` and `B`, the collection deleted the key `b` — the call
+succeeded, no mode was left, the active mode had been deleted (I2) and named no stored mode (I3).  The code as it is
+(`ikstep`) refuses that delete, as it refuses the one spelled `B`.  Second run, through the servers: a client that
+says `b` throughout (`UpdateActiveMode b`, `DeleteMode b`) deleted the active mode all the same, because the record
+was added as `B` and the active mode carries that spelling; refused now. -/
 theorem C19_icpt_fails :
     (let mB' : Mode := Mode.mk4 "B" "tb" false none
      let r1 := ikstep foldB (KSt.ofSt St.init) (.add mB')
      let r2 := ikstep foldB r1.1 (.changeActive "B" 5)
-     let r3 := ikstep foldB r2.1 (.delete "b" false {})
-     let r3' := ikstep foldB r2.1 (.delete "B" false {})
+     let r3 := ikdeleteModeUnfixed foldB r2.1 "b" false {}
      r1.2 = .ok none ∧ r1.1.recs = [("b", mB')] ∧ r2.2.isOk = true ∧ r2.1.active.id = "B" ∧
      r3.2 = .ok none ∧ r3.1.recs = [] ∧ r3.1.changed = true ∧ kfind r3.1 (foldB r3.1.active.id) = none ∧
-     r3'.2 = .err .failedPrecondition ∧ r3'.1 = r2.1) ∧
-    -- … and a caller that uses ONE spelling throughout is not safe either, when the record was written with the other
+     ikstep foldB r2.1 (.delete "b" false {}) = (r2.1, .err .failedPrecondition) ∧
+     ikstep foldB r2.1 (.delete "B" false {}) = (r2.1, .err .failedPrecondition)) ∧
     (let mB' : Mode := Mode.mk4 "B" "tb" false none
      let r1 := ikstep foldB (KSt.ofSt St.init) (.add mB')
      let r2 := ikstep foldB r1.1 (.sChangeActive "b" 5)
-     let r3 := ikstep foldB r2.1 (.sDelete "b" false)
+     let r3 := ikdeleteModeUnfixed foldB r2.1 "b" false {}
      r2.2.isOk = true ∧ r2.1.active.id = "B" ∧ r3.2 = .ok none ∧ r3.1.recs = [] ∧
-     kfind r3.1 (foldB r3.1.active.id) = none) := by decide
+     kfind r3.1 (foldB r3.1.active.id) = none ∧
+     ikstep foldB r2.1 (.sDelete "b" false) = (r2.1, .err .failedPrecondition)) := by decide
 
-/-- **C19_icpt_repair.** What closes `C19_icpt_fails` (a statement about a PROPOSED guard, `ikdeleteModeRepaired`, not
-about the code): if `deleteMode` also refuses when the mode stored under the id carries the active mode's id, then
-for EVERY interceptor `c`, every state and every two spellings `id`, `id'` of one key (`c id' = c id`): once
-`ChangeActiveMode(id)` has succeeded, `DeleteMode(id')` is refused with FailedPrecondition and nothing changes —
-whatever its options; and where records carry their keys and the id is spelled canonically the repaired guard
-decides exactly as the present one (so nothing proved about the code's behaviour there is lost). -/
-theorem C19_icpt_repair (c : String → String) (k : KSt) (id id' : String) (now : Nat) (am : Bool) (d : DOpts) :
-    ((ikchangeActive c k id now).2.isOk = true → c id' = c id →
-      ikdeleteModeRepaired c (ikchangeActive c k id now).1 id' am d
-        = ((ikchangeActive c k id now).1, .err .failedPrecondition)) ∧
-    (KeyOk k → c id = id → ikdeleteModeRepaired c k id am d = ikdeleteMode c k id am d) := by
+/-- **C19_icpt_respell_fails.** The second guard alone (00bc77e: refuse when the mode stored under the id carries the
+active mode's id; `ikdeleteModeHalf`) does not give I2: `AddMode B`, `ChangeActiveMode B`, then `UpdateMode{Id:"b"}`
+— which writes the id it is given (2b5cf2c) — leaves the record under `b` with the id `b` while the active mode
+still says `B`; `DeleteMode("b")` then passes both comparisons and deletes the active mode.  The third guard
+(c078347: the active mode's id finds the same stored mode) refuses it: the code as it is (`ikstep`). -/
+theorem C19_icpt_respell_fails :
+    let mB' : Mode := Mode.mk4 "B" "tb" false none
+    let k2 := ikrun foldB (KSt.ofSt St.init) [.add mB', .changeActive "B" 5]
+    let r3 := ikstep foldB k2 (.update (Mode.mk4 "b" "x" false none) (some ⟨[.title], false⟩) {})
+    let r4 := ikdeleteModeHalf foldB r3.1 "b" false {}
+    r3.2.isOk = true ∧ r3.1.recs.map (fun e => (e.1, e.2.id)) = [("b", "b")] ∧ r3.1.active.id = "B" ∧
+    r4.2 = .ok none ∧ r4.1.recs = [] ∧ kfind r4.1 (foldB r4.1.active.id) = none ∧
+    ikstep foldB r3.1 (.delete "b" false {}) = (r3.1, .err .failedPrecondition) := by decide
+
+/-- **C19_icpt_I2_step.** One step, no hypothesis on the state (`deleteMode` as of 00bc77e): for EVERY interceptor
+`c`, every state — records under any keys, any options written before — and every two spellings `id`, `id'` of one
+key (`c id' = c id`): once `ChangeActiveMode(id)` has succeeded, `DeleteMode(id')` is refused with FailedPrecondition
+and nothing changes, whatever its options, at both API levels; and where records carry their keys and ids (the
+call's, the active mode's) are canonical, the guards added by 00bc77e / c078347 decide exactly as the one guard did
+before (so nothing proved about the code's behaviour there is lost). -/
+theorem C19_icpt_I2_step (c : String → String) (k : KSt) (id id' : String) (now : Nat) (am : Bool) (d : DOpts) :
+    ((ikstep c k (.changeActive id now)).2.isOk = true → c id' = c id →
+      let k' := (ikstep c k (.changeActive id now)).1
+      ikstep c k' (.delete id' am d) = (k', .err .failedPrecondition) ∧
+      (id' ≠ "" → ikstep c k' (.sDelete id' am) = (k', .err .failedPrecondition))) ∧
+    (KeyOk k → c id = id → ActCanon c k → ikdeleteMode c k id am d = ikdeleteModeUnfixed c k id am d) := by
   constructor
   · intro hok hc
+    have key : ∀ (k' : KSt) (m : Mode) (dd : DOpts), kfind k' (c id') = some m → m.id = k'.active.id →
+        ikdeleteMode c k' id' am dd = (k', .err .failedPrecondition) := by
+      intro k' m dd hf hid
+      unfold ikdeleteMode
+      split
+      · rfl
+      · have hna : iknamesActive c k' id' = true := by
+          unfold iknamesActive
+          rw [hf]
+          simp [hid]
+        rw [if_pos hna]
+    simp only [ikstep] at hok ⊢
     unfold ikchangeActive at hok ⊢
     cases hf : kfind k (c id) with
     | none => simp [hf, Res.isOk] at hok
     | some m =>
       dsimp only
-      unfold ikdeleteModeRepaired
-      by_cases ha : k.active.id = m.id
-      · have : kfind { k with active := m, changed := true } (c id') = some m := by rw [hc]; exact hf
-        simp [ha, this]
-      · have : kfind { k with active := { m with start := some now }, changed := true } (c id') = some m := by
-          rw [hc]; exact hf
-        simp [ha, this]
-  · intro hk hc
-    unfold ikdeleteModeRepaired
-    by_cases hg : (kfind k (c id)).map (·.id) = some k.active.id
-    · simp only [hg, if_true]
-      -- the stored mode carries its key, so the present guard fires too
-      rw [hc] at hg
-      cases hf : kfind k id with
-      | none => simp [hf] at hg
-      | some m =>
-        have hmem := kfindL_some hf
-        have hkey : id = m.id := hk (id, m) hmem
-        simp only [hf, Option.map_some, Option.some.injEq] at hg
-        unfold ikdeleteMode
-        simp [hkey, hg]
-    · simp only [hg, if_false]
+      have hid : m.id = (if k.active.id ≠ m.id then { m with start := some now } else m).id := by split <;> rfl
+      refine ⟨key _ m d (by rw [hc]; exact hf) hid, fun hne => ?_⟩
+      simp only [hne, if_false]
+      rw [key _ m {} (by rw [hc]; exact hf) hid]
+  · intro hk hc ha
+    unfold ikdeleteMode ikdeleteModeUnfixed
+    by_cases h0 : id = k.active.id
+    · rw [if_pos h0, if_pos h0]
+    · rw [if_neg h0, if_neg h0]
+      cases hn : iknamesActive c k id with
+      | false => simp
+      | true =>
+        rw [iknamesActive_canon c k id hc ha] at hn
+        exact absurd (knamesActive_keyOk hk hn) h0
+
+/-- **C19_icpt_I2.** I2 and I3 behind an id interceptor, ANY spelling (the code after 00bc77e + c078347).  For every
+idempotent id interceptor `c` (`c (c x) = c x`, e.g. lower-casing), from any state in which every record is kept
+under the canonical form of the id it carries, keys are distinct, at most one record is normal and — if the active
+mode was already changed — the active mode's id leads to a key of the collection (a new model is such a state),
+after ANY sequence of tame operations, the ids spelled in any way whatever: once changed, the active mode's id
+finds a stored mode, whose id is a spelling of the active mode's id (I3 up to spelling); and every `DeleteMode` /
+DeleteMode RPC under ANY spelling `id'` of that key (`c id' = c active.id`) — the active mode's own id included — is
+refused with FailedPrecondition, whatever its options, and changes nothing (I2). -/
+theorem C19_icpt_I2 (c : String → String) (hc : ∀ x, c (c x) = c x) (k0 : KSt)
+    (hkc : ∀ e ∈ k0.recs, e.1 = c e.2.id) (hnd : (k0.recs.map (·.1)).Nodup)
+    (h1 : ∀ e1 ∈ k0.recs, ∀ e2 ∈ k0.recs, e1.2.normal = true → e2.2.normal = true → e1 = e2)
+    (ha0 : k0.changed = true → c k0.active.id ∈ k0.recs.map (·.1))
+    (ops : List Op) (ht : ∀ op ∈ ops, op.Tame) :
+    let k := ikrun c k0 ops
+    k.changed = true →
+      (∃ st, kfind k (c k.active.id) = some st ∧ c st.id = c k.active.id) ∧
+      ∀ id' am d, c id' = c k.active.id →
+        ikstep c k (.delete id' am d) = (k, .err .failedPrecondition) ∧
+        (id' ≠ "" → ikstep c k (.sDelete id' am) = (k, .err .failedPrecondition)) := by
+  obtain ⟨hj, ha⟩ := ikrun_JA hc ops k0 ⟨hkc, hnd, h1⟩ ha0 ht
+  intro k hch
+  have hin := ha hch
+  refine ⟨?_, fun id' am d heq => ?_⟩
+  · have hs : (kfind k (c k.active.id)).isSome = true := (kfindL_isSome_iff _ _).mpr hin
+    cases hf : kfind k (c k.active.id) with
+    | none => simp [hf] at hs
+    | some st => exact ⟨st, rfl, (hj.kc _ (kfindL_some hf)).symm⟩
+  · have hr : ∀ dd, ikdeleteMode c k id' am dd = (k, .err .failedPrecondition) :=
+      fun dd => ikdeleteMode_refuses hin heq am dd
+    refine ⟨by simp only [ikstep]; exact hr d, fun hne => ?_⟩
+    simp only [ikstep, hne, if_false, hr {}]
 
 /-! ## Non-vacuity -/
 
